@@ -308,7 +308,7 @@ def ob_c(ob):
         res, running = [], []
         ob.note("gapped family is explored in the thorough tier only (degree-2^k univariate queries)")
     else:
-        res, ex = _sp2_run([z3.RealVal(-1), y, zv, z3.RealVal(2)], 2, 1e-4, K + 2, assm)
+        res, ex = _sp2_run([z3.RealVal(-1), y, zv, z3.RealVal(2)], 2, 1e-4, K, assm)  # K+2 (degree-256 queries) did not finish in 50 minutes
         ob.paths += ex.paths
         running = [(pc, side) for pc, side, (st, it, _) in res if st == "still-running"]
         ob.note("gapped family: %d paths, %d still running at the bound" % (ex.paths, len(running)))
@@ -328,7 +328,7 @@ def ob_c(ob):
         if not hit:
             ob.inconclusive("c:gapped family: paths exceed the unrolling bound but their witnesses return on the real function (bound too small)")
     else:
-        ob.discharged("c:gapped family returns within %d iterations on all %d paths" % (K + 2, ex.paths))
+        ob.discharged("c:gapped family returns within %d iterations on all %d paths" % (K, ex.paths))
     # (2) degenerate pair at the Fermi level
     assm2 = [y > -1, y < 2]
     res2, ex2 = _sp2_run([z3.RealVal(-1), y, y, z3.RealVal(2)], 2, 1e-4, K, assm2)
